@@ -36,6 +36,23 @@ type dsaSig struct {
 	R, S *big.Int
 }
 
+// unmarshalDSASig parses a DER-encoded Dss-Sig-Value / ECDSA-Sig-Value, i.e.
+// SEQUENCE { r INTEGER, s INTEGER }. Data following the SEQUENCE is returned as
+// rest.  The value is parsed as a SEQUENCE OF INTEGER rather than into a struct
+// because asn1.Unmarshal silently ignores any data that follows the last field
+// inside a struct's SEQUENCE, which would make signatures malleable.
+func unmarshalDSASig(sig []byte) (dsaSig, []byte, error) {
+	var ints []*big.Int
+	rest, err := asn1.Unmarshal(sig, &ints)
+	if err != nil {
+		return dsaSig{}, nil, err
+	}
+	if len(ints) != 2 {
+		return dsaSig{}, nil, fmt.Errorf("signature SEQUENCE holds %d INTEGERs, want 2", len(ints))
+	}
+	return dsaSig{R: ints[0], S: ints[1]}, rest, nil
+}
+
 func generateHash(algo HashAlgorithm, data []byte) ([]byte, crypto.Hash, error) {
 	var hashType crypto.Hash
 	switch algo {
@@ -83,8 +100,7 @@ func VerifySignature(pubKey crypto.PublicKey, data []byte, sig DigitallySigned) 
 		if !ok {
 			return fmt.Errorf("cannot verify DSA signature with %T key", pubKey)
 		}
-		var dsaSig dsaSig
-		rest, err := asn1.Unmarshal(sig.Signature, &dsaSig)
+		dsaSig, rest, err := unmarshalDSASig(sig.Signature)
 		if err != nil {
 			return fmt.Errorf("failed to unmarshal DSA signature: %v", err)
 		}
@@ -102,8 +118,7 @@ func VerifySignature(pubKey crypto.PublicKey, data []byte, sig DigitallySigned) 
 		if !ok {
 			return fmt.Errorf("cannot verify ECDSA signature with %T key", pubKey)
 		}
-		var ecdsaSig dsaSig
-		rest, err := asn1.Unmarshal(sig.Signature, &ecdsaSig)
+		ecdsaSig, rest, err := unmarshalDSASig(sig.Signature)
 		if err != nil {
 			return fmt.Errorf("failed to unmarshal ECDSA signature: %v", err)
 		}
